@@ -77,6 +77,81 @@ def sample_law(ctx, model, n, rs, rep, n_draws, eps):
         ctx.violation('c16-sample-law', f'sampled frequencies deviate from the model distribution by {dev:.4f} (N={n_draws}, bound {eps:.4f})', replay=rep)
 
 
+def sample_law_labels(ctx, model, n, classes, rs, rep, n_draws):
+    """`sample(n, y=labels)` with labels that are neither constant nor sorted: row i must be a draw from the distribution of class
+    labels[i] (theorem `ratspn_sample_law_anyclass` is per class; the batch must not mix the classes up)"""
+    with torch.no_grad():
+        rows = torch.tensor(list(itertools.product([0.0, 1.0], repeat=n)))
+        P = torch.exp(model(rows).double()).numpy()            # (2^n, classes)
+        y = torch.tensor(rs.randint(0, classes, size=n_draws)).long()
+        torch.manual_seed(int(rs.randint(2 ** 31 - 1)))
+        s = model.sample(n_draws, y=y).long().numpy()
+    codes = np.zeros(n_draws, dtype=np.int64)
+    for v in range(n):
+        codes = codes * 2 + s[:, v]
+    ctx.count('labelled-sample-law-cases')
+    for c in range(classes):
+        sel = (y.numpy() == c)
+        k = int(sel.sum())
+        if k < 1000:
+            continue
+        emp = np.bincount(codes[sel], minlength=2 ** n) / k
+        eps = math.sqrt(math.log(2.0 * (2 ** n) * 64 / 1e-9) / (2.0 * k))
+        dev = float(np.abs(emp - P[:, c]).max())
+        if dev > eps:
+            ctx.violation('c16-sample-law-labels', f'sample(n, y=labels) with shuffled labels: the rows labelled {c} deviate from the distribution of class {c} by '
+                          f'{dev:.4f} (N={k}, bound {eps:.4f}; features={n})', replay=rep)
+            return False
+    return True
+
+
+def wide_arch(ctx, n, d, reps, seed, rs, n_draws):
+    """architectures with more than 16 padded features per repetition (the width at which library sorts stop being stable and
+    vectorised paths switch kernels): exhaustive enumeration in chunks for the exact single-variable and adjacent-pair marginals,
+    then the sample law (Hoeffding, union bound over all statistics) and the MPE / sample contract."""
+    rep = dict(kind='c16-wide', features=n, depth=d, repetitions=reps, seed=seed)
+    pad = (-n) % (2 ** d)
+    ctx.case('wide-arch', nontrivial_key=('wide', n, d, reps, seed), sample=dict(rep, pad=pad))
+    ctx.count('wide-architectures')
+    model = BernoulliRatSpn(n, out_classes=1, rg_depth=d, rg_repetitions=reps, rg_batch=2, rg_sum=2, random_state=np.random.RandomState(seed))
+    torch.manual_seed(seed)
+    for p_ in model.parameters():
+        p_.data.normal_(0.0, 1.5)
+    model.eval()
+    m1 = np.zeros(n)
+    m2 = np.zeros(n - 1)
+    mass = 0.0
+    with torch.no_grad():
+        chunk = 1 << 15
+        for lo in range(0, 1 << n, chunk):
+            codes = np.arange(lo, min(lo + chunk, 1 << n), dtype=np.int64)
+            bits = ((codes[:, None] >> np.arange(n - 1, -1, -1)[None, :]) & 1).astype(np.float32)
+            p = torch.exp(model(torch.from_numpy(bits)).double())[:, 0].numpy()
+            mass += float(p.sum())
+            m1 += p @ bits
+            m2 += p @ (bits[:, :-1] * bits[:, 1:])
+        if abs(mass - 1.0) > 1e-4:
+            ctx.violation('c16-mass', f'the outputs sum to {mass} over all 2^{n} inputs (wide architecture)', replay=rep)
+            return False
+        if not impl_oracle(ctx, model, n, 1, rs, rep):
+            return False
+        torch.manual_seed(int(rs.randint(2 ** 31 - 1)))
+        smp = model.sample(n_draws).double().numpy()
+    e1 = smp.mean(axis=0)
+    e2 = (smp[:, :-1] * smp[:, 1:]).mean(axis=0)
+    eps = math.sqrt(math.log(2.0 * (2 * n) * 64 / 1e-9) / (2.0 * n_draws))
+    dev1, dev2 = float(np.abs(e1 - m1).max()), float(np.abs(e2 - m2).max())
+    ctx.count('wide-sample-law-cases')
+    ctx.extra['worst_wide_sampling_deviation'] = max(ctx.extra.get('worst_wide_sampling_deviation', 0.0), dev1, dev2)
+    if max(dev1, dev2) > eps:
+        v = int(np.abs(e1 - m1).argmax()) if dev1 >= dev2 else int(np.abs(e2 - m2).argmax())
+        ctx.violation('c16-sample-law-wide', f'{n} features, depth {d} (pad {pad}): sampled frequency of '
+                      + (f'x{v}=1 is {e1[v]:.4f}, the model gives {m1[v]:.4f}' if dev1 >= dev2 else f'x{v}=x{v + 1}=1 is {e2[v]:.4f}, the model gives {m2[v]:.4f}')
+                      + f' (N={n_draws}, bound {eps:.4f})', replay=rep)
+        return False
+    return True
+
+
 def run(ctx):
     quick = ctx.tier == 'quick'
     cfgs = []
@@ -109,6 +184,9 @@ def run(ctx):
             if ctx.n_new(with_input_only=True) >= 3:
                 return
             continue
+        if classes >= 2 and n <= 7 and ctx.extra.get('n_label_law', 0) < (2 if quick else 10):
+            ctx.extra['n_label_law'] = ctx.extra.get('n_label_law', 0) + 1
+            sample_law_labels(ctx, model, n, classes, rs, rep, 60000)
         if n <= 8 and n_law < (2 if quick else 12) and pad > 0:
             n_law += 1
             m1 = BernoulliRatSpn(n, out_classes=1, rg_depth=d, rg_repetitions=reps, rg_batch=2, rg_sum=2, random_state=np.random.RandomState(seed))
@@ -145,6 +223,13 @@ def run(ctx):
                     if any(abs(g - x) > 1e-4 * max(abs(x), 1e-300) + 1e-9 for g, x in zip(got, e)):
                         ctx.violation('c16-forward-vs-model', f'forward value {e} vs unrolled circuit {got} on {o["row"]} (features={n}, depth={d})', replay=rep, found_input=False)
                         break
+        if ctx.n_new(with_input_only=True) >= 3:
+            return
+    # wide architectures (> 16 padded features per repetition)
+    wide = [(17, 2), (18, 3), (19, 2)] if quick else [(17, 2), (17, 3), (18, 2), (18, 3), (19, 2), (19, 3), (20, 3), (21, 2), (21, 3)]
+    for i, (n, d) in enumerate(wide):
+        rs = np.random.RandomState(np_seed(ctx.sub_rng('wide', n, d)))
+        wide_arch(ctx, n, d, 1 + i % 2, int(rs.randint(10 ** 6)), rs, 60000)
         if ctx.n_new(with_input_only=True) >= 3:
             return
     # history: parameters saved from one model and loaded into a separately built model of the same architecture (different region
@@ -210,6 +295,16 @@ def replay(rep):
         from harness.common import replay_demo
         return replay_demo(rep['replay'])
     r = rep['replay']
+    if r['kind'] == 'c16-wide':
+        class _C:
+            tier = 'quick'; extra = {}
+            def __init__(self): self.bad = []
+            def case(self, *a, **k): pass
+            def count(self, *a, **k): pass
+            def violation(self, fp, what, **k): self.bad.append(what); print(what)
+        c = _C()
+        wide_arch(c, r['features'], r['depth'], r['repetitions'], r['seed'], np.random.RandomState(1), 60000)
+        return not c.bad
     if r['kind'] != 'c16':
         return True
     rs = np.random.RandomState(0)
